@@ -236,6 +236,11 @@ func genE2E(t *rapid.T) e2eCase {
 		case x <= 2:
 			c.Ops = append(c.Ops, eop{Op: "cmd", Cmd: [][]byte{b("SET"), key(), val()}})
 		case x == 3:
+			if rapid.Bool().Draw(t, "setget") {
+				// SET with the GET option answers with the OLD value: a read-back of whatever was stored before
+				c.Ops = append(c.Ops, eop{Op: "cmd", Cmd: [][]byte{b(rapid.SampledFrom([]string{"SET", "set"}).Draw(t, "sg")), key(), val(), b(rapid.SampledFrom([]string{"GET", "get"}).Draw(t, "sgo"))}})
+				break
+			}
 			c.Ops = append(c.Ops, eop{Op: "cmd", Cmd: [][]byte{b("set"), key(), val(), b("EX"), b("100")}})
 		case x == 4:
 			c.Ops = append(c.Ops, eop{Op: "cmd", Cmd: [][]byte{b("SETNX"), key(), val()}})
